@@ -788,9 +788,15 @@ def load_merges(P, R, rule='C15.MPT.3'):
     if not merges:
         raise AnalysisBroken('conf_read does not call the merge')
     n = 0
+    resv = {t.ev['lhs']['name'] for t in cr.stores() if t.ev['k'] == 'store' and is_var(t.ev.get('lhs')) and any(isinstance(x, dict) and x.get('k') == 'callref' and x.get('callee') in ('setjmp', '_setjmp', '__sigsetjmp') for x in walk(t.ev.get('rhs') or {}))}
     for b in cr.reachable_blocks():
         for e in cr.out[b]:
-            if e.label == 'case' and e.vs and 0 in e.vs:
+            ok_edge = e.label == 'case' and e.vs and 0 in e.vs
+            if not ok_edge and e.cond is not None and e.label not in ('case', 'default'):
+                # the same dispatch written as `if (res == 0) ... else ...`
+                r = e.rel()
+                ok_edge = bool(r) and is_var(r[0]) and r[0]['name'] in resv and r[1] == '==' and const_of(r[2]) == 0
+            if ok_edge:
                 n += 1
                 p = cr.path_from_block(e.dst, lambda t: t.key in {m.key for m in merges})
                 R.ob(rule, p is None, merges[0], 'every normal path through the successful-parse branch of conf_read reaches the merge%s' % ('' if p is None else ' (a path avoids it: lines %s)' % cr.path_lines(p)), key='load-merges')
